@@ -149,6 +149,9 @@ class DocGen:
             dsc = r.choice(['', ' descr="d &amp; &lt;x&gt;"', ' descr=""', ' descr="plain alt"'] if P.get('alt_markup', True) else ['', ' descr="plain alt"', ' descr="alt two"'])
             e = r.choice(['r:embed="rId20"', 'r:embed="rId404"', 'r:link="rId21"', '', 'r:embed="rId21"'] if P.get('dangling') else ['r:embed="rId20"', 'r:embed="rId21"', ''])
             if P.get('no_r'): e = ''
+            if r.random() < 0.2 and dsc:
+                # a described drawing without a picture (chart / shape placeholder): only the alt text is rendered
+                return f'<w:drawing><wp:inline><wp:extent cx="1" cy="1"/><wp:docPr id="2" name="chart"{dsc}/><a:graphic><a:graphicData uri="chart"><a:chartPlaceholder/></a:graphicData></a:graphic></wp:inline></w:drawing>'
             return f'<w:drawing><wp:inline><wp:extent cx="1" cy="1"/><wp:docPr id="1" name="n"{dsc}/><a:graphic><a:graphicData uri="u"><a:blip {e}/></a:graphicData></a:graphic></wp:inline></w:drawing>'
         if kind == 'pict':
             if P.get('no_r'): return '<w:pict><v:shape><v:imagedata croptop="1f"/></v:shape></w:pict>'
@@ -256,7 +259,7 @@ class DocGen:
             pre = f'<w:commentRangeEnd w:id="{i}"/><w:r><w:commentReference w:id="{i}"/></w:r>'
         ppr = self.ppr()
         inl = ''.join(self.inline(d) for _ in range(self.rint('inlines')))
-        if d == 0 and self.p.get('straddle_ranges') and getattr(self, 'pending_end', None) is None and self.r.random() < 0.15:
+        if d == 0 and self.p.get('straddle_ranges') and getattr(self, 'pending_end', None) is None and self.r.random() < float(self.p.get('straddle_ranges')):
             # a range that starts after the last run of this paragraph and ends before the first run of the next one
             i = self.next_comment; self.next_comment += 1; self.comment_ids.append(i); self.pending_end = i
             post = f'<w:commentRangeStart w:id="{i}"/>'; self.feat.add('straddling_range')
@@ -330,7 +333,7 @@ class DocGen:
         s += '<w:num w:numId="1"><w:abstractNumId w:val="0"/></w:num><w:num w:numId="2"><w:abstractNumId w:val="1"/><w:lvlOverride w:ilvl="0"><w:startOverride w:val="3"/></w:lvlOverride></w:num>'
         k = r.random()
         if k < 0.2: s += '<w:num w:numId="3"/>'
-        elif k < 0.3: s += '<w:num w:numId="3"><w:abstractNumId w:val="7"/></w:num>'     # refers to a definition that does not exist
+        elif k < 0.45: s += '<w:num w:numId="3"><w:abstractNumId w:val="7"/></w:num>'     # refers to a definition that does not exist
         return s
 
     def body(self):
